@@ -59,10 +59,13 @@ func (*float64Scalar) CoerceIn(v interface{}) (interface{}, error) {
 		v = float64(tv)
 	case string:
 		var f float64
-		if f, err = strconv.ParseFloat(tv, 64); err == nil {
+		if f, err = strconv.ParseFloat(tv, 64); err == nil && !math.IsNaN(f) && !math.IsInf(f, 0) {
 			v = f
 		} else {
 			v = nil
+			if err == nil {
+				err = newCoerceErr(tv, "Float64")
+			}
 		}
 	default:
 		v = nil
